@@ -16,16 +16,18 @@ import (
 )
 
 type failureOut struct {
-	Kind      string            `json:"kind"`
-	ID        string            `json:"id"`
-	Pos       string            `json:"pos"`
-	Detail    string            `json:"detail,omitempty"`
-	Model     map[string]uint64 `json:"model,omitempty"`
-	Decisions []string          `json:"decisions,omitempty"`
-	Choices   []decOut          `json:"choices,omitempty"`
-	Known     []string          `json:"known,omitempty"`
-	Stack     []string          `json:"stack,omitempty"`
-	Blocked   []string          `json:"blocked,omitempty"`
+	Kind      string               `json:"kind"`
+	ID        string               `json:"id"`
+	Pos       string               `json:"pos"`
+	Detail    string               `json:"detail,omitempty"`
+	Model     map[string]uint64    `json:"model,omitempty"`
+	Decisions []string             `json:"decisions,omitempty"`
+	Choices   []decOut             `json:"choices,omitempty"`
+	Known     []string             `json:"known,omitempty"`
+	Stack     []string             `json:"stack,omitempty"`
+	Blocked   []string             `json:"blocked,omitempty"`
+	Schedule  []symgo.SchedStep    `json:"schedule,omitempty"`
+	Gids      map[string][2]uint32 `json:"gids,omitempty"`
 }
 
 type decOut struct {
@@ -193,6 +195,13 @@ func main() {
 	res := eng.Results()
 	conv := func(f *symgo.Failure) failureOut {
 		fo := failureOut{Kind: f.Kind, ID: f.ID, Pos: f.Pos, Detail: f.Detail, Model: f.Model, Known: f.Known, Stack: f.Stack, Blocked: f.Blocked}
+		fo.Schedule = eng.ScheduleOf(f)
+		if len(fo.Schedule) > 0 {
+			fo.Gids = map[string][2]uint32{}
+			for id, k := range f.Gids {
+				fo.Gids[fmt.Sprint(id)] = k
+			}
+		}
 		for _, d := range f.Decs {
 			fo.Decisions = append(fo.Decisions, fmt.Sprintf("%s:%s=%d", d.Kind, d.Desc, d.Val))
 			if d.Kind != "sched" {
